@@ -152,6 +152,8 @@ def collect_gae_cases(ck, n):
     out = []
     rng = ck.rng
     for idx in range(n):
+        if idx % 20 == 19:
+            jax.clear_caches()
         lit, j, meta = gen_rollout_case(ck, rng, 900_000 + idx, force_vec=bool(idx % 2), Tmax=12)
         # rebuild env/policy to evaluate the bootstrap value of the final state
         env = build_stack(TabEnv(j["spec"]), j["stack(outermost first)"])
